@@ -758,7 +758,7 @@ func NewCachingResponseWriter(w http.ResponseWriter, cw CacheWriter, logctx *ape
 // Helper functions
 
 func normalizeEtag(s string) string {
-	return strings.TrimLeft(s, "W/")
+	return strings.TrimPrefix(s, "W/")
 }
 
 type CacheControlDirectives struct {
